@@ -147,7 +147,7 @@ type stats struct {
 	gets, finds                                    int64
 	activeChecked, inactiveChecked                 int64
 	sharedNodes, maxMult                           int64 // nodes seen with multiplicity >= 2
-	gcRemoved, gcNoop                              int64
+	gcRemoved, gcNoop, prunedNoopGC                int64
 	reactivated                                    int64 // node re-created while an inactive copy was stored
 	oldOK, oldErr                                  int64 // Get under a non-retained root: correct data / error
 	emptied                                        int64
@@ -181,6 +181,7 @@ func (s *stats) merge(o *stats) {
 	}
 	s.gcRemoved += o.gcRemoved
 	s.gcNoop += o.gcNoop
+	s.prunedNoopGC += o.prunedNoopGC
 	s.reactivated += o.reactivated
 	s.oldOK += o.oldOK
 	s.oldErr += o.oldErr
@@ -416,7 +417,7 @@ func (in *inst) countStore(s storage.Store) int {
 	return n
 }
 
-func (in *inst) gc(g uint32) {
+func (in *inst) gc(g uint32) (removed int) {
 	before := in.countStore(in.ps)
 	in.mod.GC(g, in.ps)
 	after := in.countStore(in.ps)
@@ -432,6 +433,7 @@ func (in *inst) gc(g uint32) {
 	}
 	in.gcRan = true
 	in.st.gcs++
+	return before - after
 }
 
 // retained: is the state of height r one the mode promises to keep?
@@ -717,7 +719,18 @@ func runCase(c *caseRec, st *stats, checkFrom int, checkAll bool, states *u64set
 				if g.G > in.persisted {
 					panic("harness: GC above the persisted height")
 				}
-				in.gc(g.G)
+				if in.gc(g.G) == 0 && !checkAll {
+					// Nothing was deleted: from here on the implementation is in
+					// the same state as in the case without this event (explored
+					// elsewhere, with stronger retention demands). Judge the store
+					// once with the new bound and stop.
+					st.prunedNoopGC++
+					kind, detail = in.check()
+					if kind == "" && states != nil {
+						states.add(in.digest)
+					}
+					return
+				}
 			}
 		}
 		if judge(i) {
@@ -778,7 +791,11 @@ func names(h []int) []string {
 
 func TestCheck(t *testing.T) {
 	debug.SetGCPercent(400) // many tiny short-lived stores; the live heap is small
-	r := vk.Start("C11", "model_checking", 110*time.Second, 19*time.Minute)
+	bq, bt := 110*time.Second, 15*time.Minute
+	if os.Getenv("C11_FAMILY") == "dropped" {
+		bq, bt = 40*time.Second, 4*time.Minute
+	}
+	r := vk.Start("C11", "model_checking", bq, bt)
 	if r.Replay != "" {
 		replay(r)
 		return
@@ -788,10 +805,10 @@ func TestCheck(t *testing.T) {
 	family := os.Getenv("C11_FAMILY")
 	dropped := family == "dropped"
 	survey := os.Getenv("C11_SURVEY") != "" // development aid: count violation kinds instead of stopping
-	K := vk.Pick(r, 8, 9)
+	K := 8
 	B := vk.Pick(r, 4, 5)
 	K2 := vk.Pick(r, 5, 7) // alphabet of the second phase: two GC events per history
-	K3 := 5                // third phase: longer histories over the first batches
+	K3 := 4                // third phase: longer histories over the first batches
 	B3 := vk.Pick(r, 5, 6)
 	if dropped {
 		K, B, K2, K3 = 8, vk.Pick(r, 3, 4), 0, 0
@@ -851,6 +868,11 @@ func TestCheck(t *testing.T) {
 			}
 		}
 	}
+	// Simplest first, all configurations side by side: if the deadline stops the
+	// run, what is missing are the histories starting with the later batches.
+	sort.SliceStable(jobs, func(a, b int) bool {
+		return max(jobs[a].k0, jobs[a].k1) < max(jobs[b].k0, jobs[b].k1)
+	})
 	surveyKinds := map[string]int{}
 	surveyFirst := map[string]*caseRec{}
 	report := func(c *caseRec, kind, detail string, at int) {
@@ -969,48 +991,50 @@ func TestCheck(t *testing.T) {
 	}
 	transitions := total.blocks + total.dropped + total.persists + total.gcs
 	r.Finish(map[string]any{
-		"states":                         states.len(),
-		"transitions":                    int(transitions),
-		"traces_validated_against_impl":  int(cases),
-		"rule":                           "every history of B batches over the first K batches of the alphabet (and of B3 batches over the first K3), in every configuration (mode/persist period/collapse depth or restart/applier), plus for mode gc every GC(G) event (G <= persisted height) at every point; a state = digest of the raw DataMPT content + configuration + height + collected-up-to",
-		"alphabet_batches_K":             K,
-		"blocks_per_history_B":           B,
-		"long_histories_phase_K":         K3,
-		"long_histories_phase_B":         B3,
-		"alphabet":                       al,
-		"configurations":                 cs,
-		"two_gc_events_phase_alphabet_K": K2,
-		"two_gc_events_phase_configs":    len(cfgs2),
-		"histories_run":                  int(histories),
-		"cases_run":                      int(cases),
-		"cases_with_gc":                  int(gcCases),
-		"family":                         map[bool]string{false: "committed blocks only", true: "one block computed and never committed per history"}[dropped],
-		"blocks_computed_and_dropped":    int(total.dropped),
-		"dropped_cases_failing":          surveyKinds,
-		"dropped_cases_clean":            int(droppedClean),
-		"blocks_applied":                 int(total.blocks),
-		"persists":                       int(total.persists),
-		"restarts":                       int(total.restarts),
-		"gc_runs":                        int(total.gcs),
-		"gc_runs_removing_nothing":       int(total.gcNoop),
-		"gc_nodes_removed":               int(total.gcRemoved),
-		"oracle_evaluations":             int(total.checks),
-		"raw_nodes_decoded":              int(total.nodesDecoded),
-		"nodes_visited_by_walks":         int(total.nodesWalked),
-		"roots_walked":                   int(total.rootsWalked),
-		"active_nodes_count_checked":     int(total.activeChecked),
-		"inactive_nodes_height_checked":  int(total.inactiveChecked),
-		"shared_node_sightings":          int(total.sharedNodes),
-		"max_node_multiplicity":          int(total.maxMult),
-		"nodes_recreated_while_inactive": int(total.reactivated),
-		"blocks_emptying_the_trie":       int(total.emptied),
-		"get_calls":                      int(total.gets),
-		"find_calls":                     int(total.finds),
-		"old_root_get_correct":           int(total.oldOK),
-		"old_root_get_error":             int(total.oldErr),
+		"states":                                states.len(),
+		"transitions":                           int(transitions),
+		"traces_validated_against_impl":         int(cases),
+		"rule":                                  "every history of B batches over the first K batches of the alphabet (and of B3 batches over the first K3), in every configuration (mode/persist period/collapse depth or restart/applier), plus for mode gc every GC(G) event (G <= persisted height) at every point; a state = digest of the raw DataMPT content + configuration + height + collected-up-to",
+		"alphabet_batches_K":                    K,
+		"blocks_per_history_B":                  B,
+		"long_histories_phase_K":                K3,
+		"long_histories_phase_B":                B3,
+		"alphabet":                              al,
+		"configurations":                        cs,
+		"two_gc_events_phase_alphabet_K":        K2,
+		"two_gc_events_phase_configs":           len(cfgs2),
+		"histories_run":                         int(histories),
+		"cases_run":                             int(cases),
+		"cases_with_gc":                         int(gcCases),
+		"family":                                map[bool]string{false: "committed blocks only", true: "one block computed and never committed per history"}[dropped],
+		"blocks_computed_and_dropped":           int(total.dropped),
+		"dropped_cases_failing":                 surveyKinds,
+		"dropped_cases_clean":                   int(droppedClean),
+		"blocks_applied":                        int(total.blocks),
+		"persists":                              int(total.persists),
+		"restarts":                              int(total.restarts),
+		"gc_runs":                               int(total.gcs),
+		"gc_runs_removing_nothing":              int(total.gcNoop),
+		"cases_cut_after_a_gc_removing_nothing": int(total.prunedNoopGC),
+		"gc_nodes_removed":                      int(total.gcRemoved),
+		"oracle_evaluations":                    int(total.checks),
+		"raw_nodes_decoded":                     int(total.nodesDecoded),
+		"nodes_visited_by_walks":                int(total.nodesWalked),
+		"roots_walked":                          int(total.rootsWalked),
+		"active_nodes_count_checked":            int(total.activeChecked),
+		"inactive_nodes_height_checked":         int(total.inactiveChecked),
+		"shared_node_sightings":                 int(total.sharedNodes),
+		"max_node_multiplicity":                 int(total.maxMult),
+		"nodes_recreated_while_inactive":        int(total.reactivated),
+		"blocks_emptying_the_trie":              int(total.emptied),
+		"get_calls":                             int(total.gets),
+		"find_calls":                            int(total.finds),
+		"old_root_get_correct":                  int(total.oldOK),
+		"old_root_get_error":                    int(total.oldErr),
 	}, []string{
 		"retained roots: ModeLatest the latest only; ModeGC every height >= the highest G collected so far; ModeAll all",
 		"GC(G) is only issued with G <= persisted height (Blockchain.tryRunGC uses persisted height - MaxTraceableBlocks) and acts on the backing store while later blocks may still sit in the cache layer",
+		"a GC run that deletes nothing has no other effect (Module.GC only reads and deletes), so such a case is judged once right after the GC and not continued: its continuation is the case without that event",
 		"a node restart is not performed while the state is empty (a real chain never has an empty state after genesis; Init would give an unusable zero HashNode root)",
 		"Find is exercised with nil start only (its from/maxNum semantics belong to C10)",
 		"the search runs on the implementation itself: every transition is a call into pkg/core/mpt / pkg/core/stateroot / pkg/core/storage",
